@@ -84,6 +84,20 @@ def run(ctx) -> None:
                     ctx.oracle_failure("C16", f"a second run into the same output directory changed {bad[:3]}",
                                        {"stage": "S-B", "case": label, "safe": safe, "paths": bad[:5],
                                         "first": {p: r[3].get(p) for p in bad[:2]}, "second": {p: r2[3].get(p) for p in bad[:2]}})
+            if ctx.prop == "C16" and r[0] == "ok":
+                # C16: a second generation from the SAME API object (fresh generator, fresh directory): same files
+                out3 = implrun.tmp_out("sb3")
+                r3 = implrun.generate(impl, api, safe, out3)
+                shutil.rmtree(out3, ignore_errors=True)
+                if r3[0] != "ok":
+                    ctx.oracle_failure("C16", f"a second generation from the same API object raised {r3[1]} at {r3[2]}",
+                                       {"stage": "S-B", "case": label, "safe": safe})
+                elif r3[3] != r[3]:
+                    bad = [p for p in sorted(set(r[3]) | set(r3[3])) if r[3].get(p) != r3[3].get(p)]
+                    ctx.oracle_failure("C16", f"a second generation from the same API object differs from the first in {bad[:3]}",
+                                       {"stage": "S-B", "case": label, "safe": safe, "paths": bad[:5],
+                                        "aliased_reexport": any(q.get("alias") for m in j["modules"] for q in m.get("qualified_imports", [])),
+                                        "first": {p: r[3].get(p) for p in bad[:1]}, "second": {p: r3[3].get(p) for p in bad[:1]}})
             shutil.rmtree(out, ignore_errors=True)
             for k, v in feats.items():
                 rep.bump("features", k, v)
